@@ -889,6 +889,118 @@ Proof.
   rewrite <- (slice_correct starts limits strides (decanon a)) by exact E. reflexivity.
 Qed.
 
+(* ================================================================ iota / arange *)
+(* jnp.arange(n) on integers: one Range node *)
+Definition gk_arange (n : nat) : gkern := gk_node 0 "Range"%string [n] (fun _ => Some (tcanon (jax_iota [n] 0))).
+Lemma gk_arange_ok n : sgkern_ok (gk_arange n).
+Proof. apply gk_node_ok. intros [|? ?] out Hl H; [|discriminate]. injection H as <-. reflexivity. Qed.
+
+Lemma iota_elem_law sb (i : nat) : (0 < snd sb)%Z -> (Z.of_nat i <= int_hi sb)%Z -> sem1 (OCast sb) (VZ (Z.of_nat i)) = VZ (Z.of_nat i).
+Proof.
+  intros Hb Hi. cbn [sem1]. unfold lift1. change (inj SZ) with VZ. rewrite prj_VZ. f_equal. unfold o_cast. apply wrap_id; [exact Hb|].
+  unfold in_int. split; [|exact Hi]. destruct sb as [[|] b]; unfold int_lo; simpl in *; [|lia].
+  assert (0 < 2 ^ (b - 1))%Z by (apply Z.pow_pos_nonneg; lia). lia.
+Qed.
+Definition iota_okb (sb : ity) (n : nat) : bool := (0 <? snd sb)%Z && (Z.of_nat n - 1 <=? int_hi sb)%Z.
+(* lax.iota(dtype, (n,), 0): Range (int64) then Cast; exact while n - 1 fits the type *)
+Definition gk_iota1 (sb : ity) (n : nat) : gkern :=
+  mkG 0 (fun _ next => ([mkNode "Range"%string [n] [] [] [next]; mkNode (oname (OCast sb)) (enc_op (OCast sb)) [next] [] [S next]],
+                        S next, S (S next)))
+      (fun _ => if iota_okb sb n then Some (tcanon (jax_iota [n] 0)) else None).
+Lemma gk_iota1_ok sb n : sgkern_ok (gk_iota1 sb n).
+Proof.
+  intros args next nodes res next' g Xs out Hem Hl Hla Hargs Hfr Hf. simpl in *. injection Hem as <- <- <-.
+  destruct (iota_okb sb n) eqn:Eok; [|discriminate]. injection Hf as <-.
+  unfold iota_okb in Eok. apply andb_prop in Eok as [Hb Hn]. apply Z.ltb_lt in Hb. apply Z.leb_le in Hn.
+  set (T0 := tcanon (trange n)). set (T1 := tcanon (tmap (sem1 (OCast sb)) (decanon T0))).
+  assert (HT : T1 = tcanon (jax_iota [n] 0)).
+  { unfold T1. apply canon_teq. eapply teq_trans; [apply tmap_teq; unfold T0; apply decanon_canon|].
+    split; [reflexivity|]. intros idx Hi. cbn [tmap trange jax_iota at_ shape] in *.
+    inversion Hi as [|i d ir dr Hlt Hr]; subst. inversion Hr; subst. cbn [nth]. apply iota_elem_law; [exact Hb | lia]. }
+  exists (upd cten (upd cten g next T0) (S next) T1). split.
+  - rewrite eval_cons_s.
+    assert (Hs0 : step cten ssem g (mkNode "Range"%string [n] [] [] [next]) = Some (upd cten g next T0)) by reflexivity.
+    match goal with |- match ?St with _ => _ end = _ => replace St with (Some (upd cten g next T0)) by (symmetry; exact Hs0) end.
+    rewrite eval_cons_s.
+    match goal with |- match ?St with _ => _ end = _ =>
+      replace St with (Some (upd cten (upd cten g next T0) (S next) T1))
+        by (symmetry; apply (step_node1 ssem ssem_op _ (OCast sb)); [simpl; lia | reflexivity | apply upd_same]) end.
+    reflexivity.
+  - split; [lia|]. split; [intros m Hm; rewrite !upd_other by lia; reflexivity|].
+    split; [intros m Hm; rewrite !upd_other by lia; apply Hfr; lia|].
+    split; [rewrite upd_same; now rewrite HT|]. intro y. simpl. lia.
+Qed.
+
+(* lax.iota(dtype, shape, dimension) of rank > 1: Range, Unsqueeze to the extents [1 .. n .. 1] (a Reshape: the harness reads
+   Unsqueeze(axes) of a statically shaped value as that Reshape), Expand to shape, Cast.  It is broadcast_in_dim of the
+   vector along [dimension] *)
+Lemma nth_in_range : forall (s : list nat) dim idx, in_range s idx -> dim < length s -> nth dim idx 0 < nth dim s 0.
+Proof.
+  induction s as [|d sh IH]; intros dim idx Hi Hdim; simpl in Hdim; [lia|].
+  inversion Hi as [|i d' ir dr Hlt Hr]; subst. destruct dim as [|dim]; simpl; [exact Hlt | apply IH; [exact Hr | lia]].
+Qed.
+Definition gk_iota (sb : ity) (shape : list nat) (dim : nat) : gkern :=
+  let n := nth dim shape 0 in
+  mkG 0 (fun _ next => ([mkNode "Range"%string [n] [] [] [next];
+                         mkNode "Reshape"%string (rsh (length shape) 0 [dim] [n]) [next] [] [S next];
+                         mkNode "Expand"%string shape [S next] [] [S (S next)];
+                         mkNode (oname (OCast sb)) (enc_op (OCast sb)) [S (S next)] [] [S (S (S next))]],
+                        S (S (S next)), S (S (S (S next)))))
+      (fun _ => if iota_okb sb n && bd_okb (length shape) 0 [dim] [n] shape && (dim <? length shape)
+                then Some (tcanon (jax_iota shape dim)) else None).
+Lemma gk_iota_ok sb shape dim : sgkern_ok (gk_iota sb shape dim).
+Proof.
+  intros args next nodes res next' g Xs out Hem Hl Hla Hargs Hfr Hf. simpl in *. injection Hem as <- <- <-.
+  set (n := nth dim shape 0) in *.
+  destruct (iota_okb sb n && bd_okb (length shape) 0 [dim] [n] shape && (dim <? length shape)) eqn:Eok; [|discriminate]. injection Hf as <-.
+  apply andb_prop in Eok as [Eok Hdim]. apply andb_prop in Eok as [Eok Hbd]. apply Nat.ltb_lt in Hdim. apply bd_okb_spec in Hbd.
+  unfold iota_okb in Eok. apply andb_prop in Eok as [Hb Hn]. apply Z.ltb_lt in Hb. apply Z.leb_le in Hn.
+  set (rs := rsh (length shape) 0 [dim] [n]) in *.
+  set (T0 := tcanon (trange n)). set (T1 := tcanon (reshape rs (decanon T0))).
+  set (T2 := tcanon (texpand shape (decanon T1))). set (T3 := tcanon (tmap (sem1 (OCast sb)) (decanon T2))).
+  assert (Hbd' : bd_ok (length shape) 0 [dim] (Tensor.shape (trange n)) shape) by exact Hbd.
+  assert (HT : T3 = tcanon (jax_iota shape dim)).
+  { unfold T3. apply canon_teq.
+    eapply teq_trans; [apply tmap_teq; unfold T2; apply decanon_canon|].
+    eapply teq_trans; [apply tmap_teq; apply texpand_teq; [unfold T1; apply decanon_canon | simpl; apply (rsh_bsub _ _ _ Hbd)]|].
+    eapply teq_trans; [apply tmap_teq; apply texpand_teq;
+                       [apply reshape_teq; [unfold T0; apply decanon_canon | simpl; unfold rs; rewrite (rsh_prod _ _ _ _ _ Hbd); reflexivity]
+                       | simpl; apply (rsh_bsub _ _ _ Hbd)]|].
+    eapply teq_trans; [apply tmap_teq; apply (broadcast_in_dim_correct shape [dim] (trange n) Hbd')|].
+    split; [reflexivity|]. intros idx Hi. cbn [tmap jax_broadcast_in_dim jax_iota trange at_ Tensor.shape] in *.
+    unfold bd_index. cbn [map2 nth]. unfold sel.
+    assert (Hlt : nth dim idx 0 < n) by (unfold n; now apply nth_in_range).
+    destruct (Nat.eqb_spec n 1) as [E1|E1].
+    - replace (nth dim idx 0) with 0 by lia. apply iota_elem_law; [exact Hb | simpl; lia].
+    - apply iota_elem_law; [exact Hb | lia]. }
+  exists (upd cten (upd cten (upd cten (upd cten g next T0) (S next) T1) (S (S next)) T2) (S (S (S next))) T3). split.
+  - rewrite eval_cons_s.
+    assert (Hs0 : step cten ssem g (mkNode "Range"%string [n] [] [] [next]) = Some (upd cten g next T0)) by reflexivity.
+    match goal with |- match ?St with _ => _ end = _ => replace St with (Some (upd cten g next T0)) by (symmetry; exact Hs0) end.
+    rewrite eval_cons_s.
+    assert (Hs1 : step cten ssem (upd cten g next T0) (mkNode "Reshape"%string rs [next] [] [S next])
+                  = Some (upd cten (upd cten g next T0) (S next) T1)).
+    { unfold step, n_uses; simpl. rewrite upd_same. unfold ssem. simpl.
+      replace (prod rs =? n * 1) with true; [reflexivity|]. symmetry. apply Nat.eqb_eq.
+      unfold rs. rewrite (rsh_prod _ _ _ _ _ Hbd). reflexivity. }
+    match goal with |- match ?St with _ => _ end = _ => replace St with (Some (upd cten (upd cten g next T0) (S next) T1)) by (symmetry; exact Hs1) end.
+    rewrite eval_cons_s.
+    assert (Hs2 : step cten ssem (upd cten (upd cten g next T0) (S next) T1) (mkNode "Expand"%string shape [S next] [] [S (S next)])
+                  = Some (upd cten (upd cten (upd cten g next T0) (S next) T1) (S (S next)) T2)).
+    { unfold step, n_uses; simpl. rewrite upd_same. unfold ssem. simpl.
+      change (c_shape T1) with rs. rewrite (bsubb_complete rs shape (rsh_bsub _ _ _ Hbd)). reflexivity. }
+    match goal with |- match ?St with _ => _ end = _ =>
+      replace St with (Some (upd cten (upd cten (upd cten g next T0) (S next) T1) (S (S next)) T2)) by (symmetry; exact Hs2) end.
+    rewrite eval_cons_s.
+    match goal with |- match ?St with _ => _ end = _ =>
+      replace St with (Some (upd cten (upd cten (upd cten (upd cten g next T0) (S next) T1) (S (S next)) T2) (S (S (S next))) T3))
+        by (symmetry; apply (step_node1 ssem ssem_op _ (OCast sb)); [simpl; lia | reflexivity | apply upd_same]) end.
+    reflexivity.
+  - split; [lia|]. split; [intros m Hm; rewrite !upd_other by lia; reflexivity|].
+    split; [intros m Hm; rewrite !upd_other by lia; apply Hfr; lia|].
+    split; [rewrite upd_same; now rewrite HT|]. intro y. simpl. lia.
+Qed.
+
 (* ================================================================ the table of a traced program *)
 (* what one equation of a real jaxpr is: primitive + static parameters (+ the operand's aval where the plugin reads it) *)
 Inductive gspec :=
@@ -905,7 +1017,8 @@ Inductive gspec :=
 | GReduceMax32 (sb : ity) (mask : list bool) | GReduceMin32 (sb : ity) (mask : list bool)   (* through an int32 work type *)
 | GReduceAnd (mask : list bool) | GReduceOr (mask : list bool)
 | GConcat (n axis : nat)
-| GSlice (starts limits strides : list nat).
+| GSlice (starts limits strides : list nat)
+| GArange (n : nat) | GIota1 (sb : ity) (n : nat) | GIota (sb : ity) (shape : list nat) (dim : nat).
 Definition gk_of (s : gspec) : option gkern :=
   match s with
   | GElem nm => option_map gk_elem (exact_table nm)
@@ -924,6 +1037,9 @@ Definition gk_of (s : gspec) : option gkern :=
   | GReduceOr m => Some (gk_reduce_or m)
   | GConcat n ax => Some (gk_concat n ax)
   | GSlice st li sr => Some (gk_slice st li sr)
+  | GArange n => Some (gk_arange n)
+  | GIota1 sb n => Some (gk_iota1 sb n)
+  | GIota sb sh d => Some (gk_iota sb sh d)
   end.
 Lemma gk_of_ok s k : gk_of s = Some k -> sgkern_ok k.
 Proof.
@@ -944,6 +1060,9 @@ Proof.
   - apply gk_reduce_or_ok.
   - apply gk_concat_ok.
   - apply gk_slice_ok.
+  - apply gk_arange_ok.
+  - apply gk_iota1_ok.
+  - apply gk_iota_ok.
 Qed.
 Fixpoint slookup (p : string) (l : list (string * gspec)) : option gspec :=
   match l with [] => None | (q, s) :: r => if String.eqb p q then Some s else slookup p r end.
@@ -990,7 +1109,8 @@ Inductive rtree :=
 | RSqueeze (axes : list nat) (a : rtree) | RTranspose (perm : list nat) (a : rtree)
 | RReduce (rk : rkind) (sb : ity) (mask : list bool) (a : rtree)
 | RConcat (axis : nat) (kids : list rtree)
-| RSlice (starts ends steps : list nat) (a : rtree).
+| RSlice (starts ends steps : list nat) (a : rtree)
+| RRange (n : nat).
 Fixpoint gtree_of (t : rtree) : gtree :=
   match t with
   | RIn i => GIn i
@@ -1006,6 +1126,7 @@ Fixpoint gtree_of (t : rtree) : gtree :=
   | RReduce rk sb m a => GNode (rname rk) (enc_red sb m) [gtree_of a]
   | RConcat ax l => GNode "Concat" [ax] (map gtree_of l)
   | RSlice st en sp a => GNode "Slice" (enc_slice st en sp) [gtree_of a]
+  | RRange n => GNode "Range" [n] []
   end%string.
 
 (* ---- non-vacuity: a traced program    (x * 2 + y) with x : int32[2,3], y : int32[3]
